@@ -10,7 +10,8 @@ SPEC_MODE = "spec"
 KEEP_PREFIX = 2                       # `clock`, `load`
 SIZES = {"quick": 4500, "thorough": 120000}
 BATCH = 1500
-EXTRA_MODULES = ("Sentinel.Lemmas.FlowReject", "Sentinel.Lemmas.FlowRejectConc", "Sentinel.Lemmas.FlowRejectG")
+EXTRA_MODULES = ("Sentinel.Lemmas.FlowReject", "Sentinel.Lemmas.FlowRejectConc", "Sentinel.Lemmas.FlowRejectG",
+                 "Sentinel.Lemmas.FlowRejectBurstG", "Sentinel.Lemmas.FlowRejectOracle")
 KEY = "assoc-standalone-own-traffic"
 RULE = ("per case: one flow.LoadRules of 1-5 Direct/Reject rules over resources 1..4 (thresholds incl. 0, fractional, subnormal, "
         "NaN, +Inf, negative=invalid; StatIntervalInMs so that default view, derived view, independent window (n buckets of 500, or "
